@@ -9,7 +9,7 @@ dir=$(mktemp -d /tmp/vf_src.XXXXXX)
 trap 'rm -rf "$dir"' EXIT
 git -C /repo archive "$rev" src | tar -x -C "$dir"
 while [ "$1" != "--" ] && [ $# -gt 0 ]; do
-  (cd "$dir" && patch -s -p1 < "$1")
+  (cd "$dir" && patch -s -p1 < "$1") || { echo "PATCH-DOES-NOT-APPLY $1"; exit 3; }
   shift
 done
 shift
